@@ -254,7 +254,9 @@ class Evaluator:
         raise SpecError("unknown identifier %r" % name)
 
     def deref(self, x, cur):
-        """auto-dereference pointers"""
+        """auto-dereference pointers (and unwrap an interface value to its dynamic value)"""
+        if isinstance(x.v, Iface) and x.v.t is not None and isinstance(x.v.t, int):
+            x = TV(x.v.v, self.ty_of(x.v.t), None)
         while isinstance(x.v, Ptr):
             if x.v.obj is None:
                 raise SpecError("nil dereference in specification")
@@ -267,6 +269,8 @@ class Evaluator:
         return x
 
     def select(self, base, name, cur):
+        if isinstance(base.v, Iface) and base.v.t is not None and isinstance(base.v.t, int):
+            base = TV(base.v.v, self.ty_of(base.v.t), None)
         if base.ty[0] != "go":
             raise SpecError("selector .%s on non-struct %r" % (name, base.ty))
         tid = base.ty[1]
